@@ -196,3 +196,30 @@ VARIANTS += [
     dict(prop="C05", name="rows-before-verify", expect="ORDER-shuffle|verify-before-release",
          edits=[dict(file=SHM, find="    .await?;\n\n    // truncate tags from output_shares\n    // verify_shuffle ensures that truncate_tags yields the correct rows\n    Ok(truncate_tags::<S>(&shuffled_shares))", replace="    .await\n    .ok();\n\n    Ok(truncate_tags::<S>(&shuffled_shares))")]),
 ]
+
+QHF = "ipa-core/src/query/runner/hybrid.rs"
+CTXF = "ipa-core/src/protocol/context/mod.rs"
+VARIANTS += [
+    # ---------------- C11 ----------------
+    dict(prop="C11", name="check-deleted", expect="ORDER|check-present",
+         edits=[dict(file=QHF, find="        unique_encrypted_hybrid_reports.check_duplicates(&resharded_tags)?;\n", replace="        let _ = &mut unique_encrypted_hybrid_reports;\n")]),
+    dict(prop="C11", name="check-result-ignored", expect="ORDER|check-result-propagated",
+         edits=[dict(file=QHF, find="        unique_encrypted_hybrid_reports.check_duplicates(&resharded_tags)?;", replace="        let _ = unique_encrypted_hybrid_reports.check_duplicates(&resharded_tags);")]),
+    dict(prop="C11", name="route-by-position", expect="ROUTE",
+         edits=[dict(file=QHF, find="            |ctx, _, tag| tag.shard_picker(ctx.shard_count()),", replace="            |ctx, record_id, _tag| crate::sharding::ShardIndex::try_from(u128::from(u32::from(record_id)) % u128::from(ctx.shard_count())).unwrap(),")]),
+    dict(prop="C11", name="insert-inverted", expect="GUARD|check_duplicate",
+         edits=[dict(file=RHF, find="        if self.insert(item.unique_bytes()) {\n            Ok(())", replace="        if !self.insert(item.unique_bytes()) {\n            Ok(())")]),
+    dict(prop="C11", name="benign-picker-high-bits", benign=True,
+         edits=[dict(file=RHF, find="        ShardIndex::try_from(num % shard_count).expect(\"Modulo a u32 will fit in u32\")", replace="        ShardIndex::try_from((num >> 96) % shard_count).expect(\"Modulo a u32 will fit in u32\")")]),
+    # ---------------- C19 ----------------
+    dict(prop="C19", name="no-close-loop", expect="PAIR-close",
+         edits=[dict(file=CTXF, find="                    for (last_record, send_channel) in send_channels.values() {\n                        send_channel.close(*last_record).await;\n                    }\n", replace="")]),
+    dict(prop="C19", name="send-error-dropped", expect="ROUTE|send:awaited-and-propagated",
+         edits=[dict(file=CTXF, find="                        se.send(*record_id, val)\n                            .await\n                            .map_err(crate::error::Error::from)?;", replace="                        let _ = se.send(*record_id, val)\n                            .await;")]),
+    dict(prop="C19", name="keep-and-send", expect="ROUTE|keep:no-send",
+         edits=[dict(file=CTXF, find="                    if dest_shard == my_shard {\n                        Ok(Some(((my_shard, Some(val)), (input, send_channels, i))))", replace="                    if dest_shard == my_shard {\n                        if let Some((record_id, se)) = send_channels.values_mut().next() {\n                            se.send(*record_id, val.clone()).await.map_err(crate::error::Error::from)?;\n                            *record_id += 1;\n                        }\n                        Ok(Some(((my_shard, Some(val)), (input, send_channels, i))))")]),
+    dict(prop="C19", name="slot-by-arrival", expect="ORDER|slot-by-source-shard",
+         edits=[dict(file=CTXF, find="    while let Some((shard_id, v)) = send_recv.try_next().await? {\n        if let Some(m) = v {\n            r[usize::from(shard_id)].push(m);", replace="    let mut arrival = 0usize;\n    while let Some((shard_id, v)) = send_recv.try_next().await? {\n        if let Some(m) = v {\n            let _ = shard_id;\n            arrival += 1;\n            let slots = r.len();\n            r[arrival % slots].push(m);")]),
+    dict(prop="C19", name="counter-not-advanced", expect="ROUTE|counter-increments-once",
+         edits=[dict(file=CTXF, find="                    let dest_shard = shard_picker(ctx, RecordId::from(*i), &val);\n                    *i += 1;", replace="                    let dest_shard = shard_picker(ctx, RecordId::from(*i), &val);")]),
+]
